@@ -49,6 +49,10 @@ type Config struct {
 	PRepeatText     float64
 	NFlags, NVars   int
 	AutoVars        bool
+	Big             bool // scale mode: long bodies, deep nesting, long elif chains, many cases / scripts / leaves
+	MaxElif         int
+	BigNumbers      bool // literals >= 256 / >= 65536, long identifiers
+	Vals            []int
 }
 
 type gen struct {
@@ -179,6 +183,46 @@ func DrawConfig(r *rng.R, p Profile, thorough bool) *Config {
 		c.MaxLeaves = r.Range(1, 6)
 		c.PBigExpr = 0.3
 	}
+	c.MaxElif = 3
+	c.BigNumbers = r.P(0.1)
+	if c.BigNumbers {
+		// var values and literals around the 8- and 16-bit boundaries
+		all := []int{0, 1, 2, 9, 10, 99, 100, 127, 128, 255, 256, 257, 1000, 32767, 32768, 65535, 65536, 65537, 70000}
+		pm := r.Perm(len(all))
+		k := r.Range(3, 8)
+		for i := 0; i < k; i++ {
+			c.Vals = append(c.Vals, all[pm[i]])
+		}
+	}
+	pBig := 0.03
+	if thorough {
+		pBig = 0.08
+	}
+	if r.P(pBig) {
+		// scale mode: thresholds (10 / 100 chunks, 16 statements, 5 elifs, 10 cases, 10 leaves,
+		// 6 scripts, depth 6) are only crossed by big programs
+		c.Big = true
+		c.Budget = r.Range(80, 260)
+		c.MaxStmts = r.Range(6, 24)
+		c.MaxDepth = r.Range(4, 9)
+		c.MaxElif = r.Range(4, 9)
+		c.PElif = 0.5 + r.Float()*0.45
+		c.MaxCases = r.Range(8, 14)
+		c.Dom = r.Range(6, 12)
+		if c.MaxLeaves < 14 && (p == PC02 || p == PC11 || r.P(0.3)) {
+			c.MaxLeaves = r.Range(10, 16)
+			c.PBigExpr = 0.5
+		}
+		c.NScripts = r.Range(1, 9)
+		c.MapScr = r.P(0.5)
+		if p == PC02 {
+			c.NScripts = 1
+			c.MapScr = false
+			c.Budget = r.Range(20, 60)
+		}
+		c.PText = on01(r, 0.6, 0.5)
+		c.PRepeatText = 0.1
+	}
 	return c
 }
 
@@ -270,9 +314,19 @@ func (g *gen) someScriptName() string {
 	return fmt.Sprintf("Ext%d", g.r.Intn(3))
 }
 
-func (g *gen) flagName() string    { return fmt.Sprintf("FLAG_%c", 'A'+g.r.Intn(g.c.NFlags)) }
-func (g *gen) trainerName() string { return fmt.Sprintf("TRAINER_%d", g.r.Intn(2)) }
-func (g *gen) varName() string     { return fmt.Sprintf("VAR_%d", g.r.Intn(g.c.NVars)) }
+// long identifiers (> 32 characters) in big-number runs
+const longTail = "_WITH_A_RATHER_LONG_NAME_THAT_GOES_ON_AND_ON"
+
+func (g *gen) tail() string {
+	if g.c.BigNumbers {
+		return longTail
+	}
+	return ""
+}
+
+func (g *gen) flagName() string    { return fmt.Sprintf("FLAG_%c", 'A'+g.r.Intn(g.c.NFlags)) + g.tail() }
+func (g *gen) trainerName() string { return fmt.Sprintf("TRAINER_%d", g.r.Intn(2)) + g.tail() }
+func (g *gen) varName() string     { return fmt.Sprintf("VAR_%d", g.r.Intn(g.c.NVars)) + g.tail() }
 
 func (g *gen) text() model.Arg {
 	r := g.r
@@ -389,6 +443,19 @@ func (g *gen) autoCmd() *model.Cmd {
 	return c
 }
 
+// lit draws an integer literal from the run's value alphabet.
+func (g *gen) lit() string {
+	r := g.r
+	if len(g.c.Vals) > 0 {
+		v := g.c.Vals[r.Intn(len(g.c.Vals))]
+		if r.P(0.2) {
+			return fmt.Sprintf("0x%X", v)
+		}
+		return fmt.Sprint(v)
+	}
+	return fmt.Sprint(r.Intn(g.c.Dom + 1))
+}
+
 func (g *gen) leaf() *model.Leaf {
 	r := g.r
 	l := &model.Leaf{}
@@ -438,13 +505,13 @@ func (g *gen) leaf() *model.Leaf {
 				l.Val = fmt.Sprintf("0x40%02X", r.Intn(3))
 			case 3:
 				l.Strict = true
-				l.Val = fmt.Sprint(r.Intn(g.c.Dom + 1))
+				l.Val = g.lit()
 			case 4:
 				l.Val = fmt.Sprintf("0x40%02X", r.Intn(3))
 			case 5:
 				l.Val = fmt.Sprintf("CONST_%d + %d", r.Intn(3), r.Intn(3))
 			default:
-				l.Val = fmt.Sprint(r.Intn(g.c.Dom + 1))
+				l.Val = g.lit()
 			}
 		}
 	}
@@ -529,7 +596,7 @@ func (g *gen) block(depth int, ctx bctx, brace bool) []*model.Stmt {
 			s := &model.Stmt{K: model.KIf}
 			s.Conds = append(s.Conds, g.expr())
 			s.Bodies = append(s.Bodies, g.block(depth+1, ctx, true))
-			for r.P(c.PElif) && len(s.Conds) < 4 {
+			for r.P(c.PElif) && len(s.Conds) <= c.MaxElif {
 				if r.P(0.2) {
 					// a sibling condition that differs from an earlier one of the chain in one
 					// detail only (or not at all): anything keyed on a rendering of the condition
@@ -643,6 +710,9 @@ func (g *gen) switchStmt(depth int, ctx bctx) *model.Stmt {
 	if n > c.Dom+3 {
 		n = c.Dom + 3
 	}
+	if len(c.Vals) > 0 && n > len(c.Vals)+2 {
+		n = len(c.Vals) + 2
+	}
 	hasDefault := r.P(c.PDefault)
 	if r.P(0.06) {
 		// a switch with nothing but a default case
@@ -657,6 +727,9 @@ func (g *gen) switchStmt(depth int, ctx bctx) *model.Stmt {
 		}
 	}
 	vals := r.Perm(c.Dom + 3)
+	if len(c.Vals) > 0 {
+		vals = r.Perm(len(c.Vals) + 2)
+	}
 	vi := 0
 	total := n
 	if hasDefault {
@@ -670,6 +743,14 @@ func (g *gen) switchStmt(depth int, ctx bctx) *model.Stmt {
 		} else {
 			v := vals[vi%len(vals)]
 			vi++
+			if len(c.Vals) > 0 {
+				// index into the value alphabet (distinct indexes -> distinct values); beyond it, unused values
+				if v < len(c.Vals) {
+					v = c.Vals[v]
+				} else {
+					v = 100000 + v
+				}
+			}
 			cs.Value = fmt.Sprint(v)
 			if r.P(0.1) {
 				cs.Value = fmt.Sprintf("0x%X", v)
